@@ -10,15 +10,15 @@ COMMON_NOTE = ('Trusted: Coq 8.16.1 kernel incl. vm_compute (no native_compute);
 CLAIMS = {
  'C01': ('67 data-processing opcode classes (ADC..TST, shifts, moves; immediate / register / register-shifted-register) '
          'each proved equal to one semantic function dp_sem (A8.8 pseudocode: Shift_C, AddWithCarry, flags, ALUWritePC) '
-         'for every operand value, flag state, mode, architecture version; frame of dp_sem proved once; ADR (incl. Rd = PC) and MOVT proved separately. End to end (Props/C01step.v): for any immediate-operand data-processing encoding with Rd != PC, one emulate_cycle proved to end in dp_sem, ITAdvance inside an IT block and PC + instruction length; every hypothesis but the fetch discharged for the ten ARM data-processing (immediate) encodings with a destination (AND, EOR, SUB, RSB, ADD, ADC, SBC, RSC, ORR, BIC) and four 16-bit Thumb ADD/SUB (immediate) encodings (flags = !InITBlock()), each on the whole cube of the encoding, for every state, with concrete machines meeting the hypotheses.',
+         'for every operand value, flag state, mode, architecture version; frame of dp_sem proved once; ADR (incl. Rd = PC) and MOVT proved separately. End to end (Props/C01step.v): for any immediate-operand data-processing encoding with Rd != PC, one emulate_cycle proved to end in dp_sem, ITAdvance inside an IT block and PC + instruction length; the same for any operand form and for the comparisons; every hypothesis but the fetch discharged for 61 encodings — ten 32-bit Thumb modified-immediate forms, ARM AND/EOR/SUB/RSB/ADD/ADC/SBC/RSC/ORR/BIC in their immediate, register and register-shifted-register forms, MOV/MVN and TST/TEQ/CMP/CMN immediate, and fifteen 16-bit Thumb encodings (flags = !InITBlock()) — each on the whole cube of the encoding, for every state, with concrete machines meeting the hypotheses.',
          'Scope: execute() of the opcode classes with condition passed (C05 covers the failing case) and field ranges as '
-         'produced by decode; the decode of operands is proved per encoding under C06/C07 and composed with these theorems for fourteen encodings.'),
- 'C02': ('36 single-register load/store classes proved equal to the architecture pseudocode (Spec/LoadStore.v, Spec/LoadStoreUnpriv.v) with MemU / MemU_unpriv instantiated by the emulator (C13/C14): LDR/LDRB/LDRH/LDRSB/LDRSH and STR/STRB/STRH in their immediate and register forms, ARM and Thumb, the five literal (PC-relative) loads, and the unprivileged LDRT/LDRBT/LDRHT/LDRSBT/LDRSHT/STRT/STRBT/STRHT: address for offset/pre/post-indexed forms modulo 2^32, width, destination value (incl. legacy rotation, zero/sign extension, UNKNOWN = 0 on a misaligned access without unaligned support), base write-back only after a successful access, loads to the PC via LoadWritePC of the loaded word; the memory hypotheses are shown satisfiable on flat maps.',
+         'produced by decode; the decode of operands is proved per encoding under C06/C07 and composed with these theorems for 61 encodings; for ADD (immediate) in ARM and in 16-bit Thumb also with the fetch discharged on flat memory (C01_add_imm_a1_closed, C01_add_imm_t1_closed, and C01_and_imm_t1_closed for a 32-bit Thumb encoding: no hypothesis about any stage is left).'),
+ 'C02': ('36 single-register load/store classes proved equal to the architecture pseudocode (Spec/LoadStore.v, Spec/LoadStoreUnpriv.v) with MemU / MemU_unpriv instantiated by the emulator (C13/C14): LDR/LDRB/LDRH/LDRSB/LDRSH and STR/STRB/STRH in their immediate and register forms, ARM and Thumb, the five literal (PC-relative) loads, and the unprivileged LDRT/LDRBT/LDRHT/LDRSBT/LDRSHT/STRT/STRBT/STRHT: address for offset/pre/post-indexed forms modulo 2^32, width, destination value (incl. legacy rotation, zero/sign extension, UNKNOWN = 0 on a misaligned access without unaligned support), base write-back only after a successful access, loads to the PC via LoadWritePC of the loaded word; the memory hypotheses are shown satisfiable on flat maps. End to end (Props/C02step.v): for STR and LDR (immediate, ARM A1; offset, pre- and post-indexed), on every word of the encoding and every state, one emulate_cycle is the architectural STORE / LOAD through MemU followed by write-back, ITAdvance and the PC advance, and on an abort exactly the exception entry with no write-back and no advance; for STR also with fetch and memory discharged on a flat map (C02_str_imm_a1_closed) and a concrete machine meeting the hypotheses.',
          'LDRD/STRD (immediate, register, literal; two words through MemA or one 64-bit access with LPAE) and the eight exclusive loads/stores (on the emulator\'s mock monitors, which never pass) are proved too (Props/C02dual.v, C02excl.v). Partial: register numbers are bounded as the encodings guarantee (Rt <= 14 where a PC destination is UNPREDICTABLE); Hyp mode is excluded for the unprivileged forms (UNPREDICTABLE); operand extraction of the encodings is checked under C06/C07.'),
  'C03': ('every member of the block-transfer family proved equal to the architectural loops by induction over the register list, for every register mask, base, W bit and state: LDM/STM in all four addressing modes (IA, DA, DB, IB; ARM and Thumb LDM), PUSH, POP, LDM/STM (user registers), LDM (exception return), RFE and SRS (ARM/Thumb): start address and written-back base per mode, lowest register at the lowest address, consecutive words modulo 2^32, PC last, write-back only after all accesses succeeded, UNKNOWN stored for a written-back base that is not lowest (the code\'s lowest-set-bit helper proved equal to the specification\'s on all 65535 non-empty lists), the user bank for the user-register forms, the banked SP of the target mode for SRS, CPSRWriteByInstr + BranchWritePC for the return forms; the invariant they need is shown to hold on flat maps for ordinary register writes.',
          'Partial: the single-register PUSH/POP encodings that use MemU have executable specifications compared three-way, without theorems; the privileged forms are stated for configurations without the Virtualization Extensions and for an invariant that also covers user-bank writes / 32-bit SPSR values (exercised by the correspondence cases, not instantiated by a theorem); transfers that abort part-way under the MPU are compared three-way; the PUSH;POP round trip is not stated separately.'),
  'C04': ('execute() of B, BL/BLX (immediate), BLX (register), BX, CBZ/CBNZ, TBB/TBH (with MemU abstracted) and the four PC-write primitives proved equal to the architectural operations for every state, offset, register and PC (incl. wrap at 2^32); the offset assembled by every branch encoding proved to be the sign-extended field for every instruction word; PC read value and sequential advance; alignment and link-value consequences.',
-         'The whole step is proved as a composition (Props/C04step.v): once fetch, class selection and operand extraction deliver an operand record, emulate_cycle is the body, ITAdvance inside an IT block, and AdvancePC, which adds the instruction length modulo 2^32 unless the body wrote the PC. Partial: loads/ALU writes to PC belong to C01-C03; that the body of each non-branch class leaves the PC unwritten is part of that class\'s execute theorem, not restated per class here. Known finding: CBZ offset scaled by 4 (pinned by the test-suite).'),
+         'The whole step is proved as a composition (Props/C04step.v): once fetch, class selection and operand extraction deliver an operand record, emulate_cycle is the body, ITAdvance inside an IT block, and AdvancePC, which adds the instruction length modulo 2^32 unless the body wrote the PC; B<c> (ARM A1), B<c> (Thumb T1) and B (Thumb T2) discharged end to end on every word of the encoding: the step is BranchWritePC of PC_read + the sign-extended offset with no sequential advance added (C04_b_a1_step, C04_b_a1_pc, C04_b_t1_step, C04_b_t2_step). Partial: loads/ALU writes to PC belong to C01-C03; that the body of each non-branch class leaves the PC unwritten is part of that class\'s execute theorem, not restated per class here. Known finding: CBZ offset scaled by 4 (pinned by the test-suite).'),
  'C05': ('CurrentCond and the 16x16 ConditionPassed table proved for every machine state; every conditional opcode class (266 of 273, enumerated from the regenerated dispatcher) proved a no-op when its condition fails; the whole step proved (Props/C05step.v): whenever fetch, class selection and operand extraction deliver an operand record of a conditional class and the condition fails, emulate_cycle ends in exactly SkipInstr — PC + instruction length modulo 2^32, ITSTATE advanced inside an IT block, every other register, system register, CPSR field and memory unchanged — with a concrete machine on which the hypotheses hold.',
          'Partial: the hypotheses "fetch / decode / from_bitarray succeed" are discharged per encoding by the C13 fetch theorem, the C06/C07 tables and the operand theorems rather than inside this statement; the same frame is also searched on the running code over members of 600 of the 602 encoding classes; "behaves as the unconditional instruction when it passes" is proved as transparency of the guard.'),
  'C06': ("ARM class selection proved, for every word of each group's architectural domain, against hand-written A5 tables by a reflective cube checker proved sound once: top-level routing and 21 groups (data-processing register / register-shifted register / immediate, multiply, halfword multiply, saturating, synchronization, miscellaneous, MSR-and-hints, extra load/store (+unprivileged), load/store word/byte, branch/block transfer, media routing, parallel signed/unsigned, packing, signed multiply/divide, coprocessor/SVC, unconditional, dp-and-miscellaneous routing); decode is a function of the word alone by type. Operand extraction proved for 268 ARM encodings (every ARM encoding but the three branches, whose offsets are C04): for every word whose register fields are r0-r12 and pairwise distinct and that meets the encoding\'s own side condition (msb >= lsb, non-empty list, P/W rules ...), from_bitarray returns the class with exactly the fields of the encoding diagram (ARMExpandImm, DecodeImmShift, P/U/W, S, lists, scaled immediates) and leaves the state untouched (Props/C06ops0-7.v, statements rendered from the hand-written table harness/optable.py).",
@@ -26,10 +26,9 @@ CLAIMS = {
  'C07': ('Thumb 16-bit class selection proved for every one of the 2^16 halfwords (evaluation inside Coq); Thumb 32-bit class selection proved for every one of the 2^32 words: top-level routing and 19 groups (coprocessor, shifted register + move/shift, modified immediate, plain binary immediate, load/store multiple, dual/exclusive/table branch, store single, load byte/halfword/word, data-processing register, parallel signed/unsigned, miscellaneous operations, multiply, long multiply, branches and miscellaneous control + CPS/hints + miscellaneous control). Operand extraction proved for 321 Thumb encodings (all but the branches and PUSH.W T2, the recorded finding): for every halfword / word whose register fields are r0-r12 and distinct and that meets the encoding\'s side condition, from_bitarray returns the class with exactly the fields of the encoding diagram (ThumbExpandImm_C with the carry, DecodeImmShift, !InITBlock() flags, register lists, scaled immediates) and leaves the state untouched (Props/C07ops0-7.v).',
          'Partial: the load-halfword hint slots (Rt = 1111) are outside the class-selection theorems; the operand theorems keep register operands inside r0-r12 (valid SP/PC operands are probed by the table-driven correspondence); branch operands are C04. Known finding: PUSH.W T2 UnalignedAllowed.'),
  'C08': ('it_advance = ITAdvance on every state; the ITSTATE schedule for every legal (firstcond, mask) and all 256 states '
-         'by exhaustive evaluation inside Coq (bound stated); executing IT sets ITSTATE = firstcond:mask and nothing else, for every state.',
-         'Partial: per-step advance inside execute_instruction, flag-setting of 16-bit encodings in IT blocks and the '
-         'exception-entry/return handling of IT bits are not yet theorems.'),
- 'C09': ('every class of the family (92 abstract opcode classes) proved bit-exact for every operand value and state against Spec/Arith.v / Spec/Arith2.v: MUL/MLA/MLS, the long multiplies (N/Z from the 64-bit result), halfword, word-by-halfword, dual and most-significant-word multiplies (Q on overflow), SDIV/UDIV, QADD/QSUB/QDADD/QDSUB and SSAT/USAT/SSAT16/USAT16 (saturation and the sticky Q flag), all 36 parallel add/subtract forms (lanes and GE flags), USAD8/USADA8, the twelve extend(-and-add) forms, PKH, REV/REV16/REVSH, RBIT (32-step loop by invariant), UBFX/SBFX/BFC, CLZ, SEL; BFI proved to do exactly what the code does and shown not to be the architectural BFI (recorded finding). The helper arithmetic they share (SignedSatQ, AddWithCarry, bit fields, sign extension) is C17.',
+         'by exhaustive evaluation inside Coq (bound stated); executing IT sets ITSTATE = firstcond:mask and nothing else, for every state; over whole steps (Props/C08step.v with C04step/C05step): after a completed or a skipped instruction ITSTATE has advanced exactly once (ITAdvance of what the body left) iff the instruction started inside an IT block; setflags = !InITBlock() of 16-bit encodings is proved end to end for four encodings (Props/C01step.v).',
+         'Partial: the IT bits saved and cleared at exception entry and restored by exception returns are part of the C11 / C12 entry and return theorems rather than restated here; the 16-bit flag rule is composed end to end for four encodings only (it is an operand theorem for every 16-bit data-processing encoding under C07).'),
+ 'C09': ('every class of the family (92 abstract opcode classes) proved bit-exact for every operand value and state against Spec/Arith.v / Spec/Arith2.v: MUL/MLA/MLS, the long multiplies (N/Z from the 64-bit result), halfword, word-by-halfword, dual and most-significant-word multiplies (Q on overflow), SDIV/UDIV, QADD/QSUB/QDADD/QDSUB and SSAT/USAT/SSAT16/USAT16 (saturation and the sticky Q flag), all 36 parallel add/subtract forms (lanes and GE flags), USAD8/USADA8, the twelve extend(-and-add) forms, PKH, REV/REV16/REVSH, RBIT (32-step loop by invariant), UBFX/SBFX/BFC, CLZ, SEL; BFI proved to do exactly what the code does and shown not to be the architectural BFI (recorded finding). MUL (ARM A1) is also proved end to end over a whole emulate_cycle for every word of the encoding (Props/C09step.v), with the general statement for any body that completes without touching the PC. The helper arithmetic they share (SignedSatQ, AddWithCarry, bit fields, sign extension) is C17.',
          'Partial: SDIV/UDIV are stated for configurations without the ARMv7-R divide-by-zero trap; the specifications in Spec/Arith2.v are hand-written from A8.8 and additionally compared three-way on lane-boundary operands; int(a / b) is modelled as truncating division (DESIGN 1.2).'),
  'C10': ('the bank table (LookUpRName = architectural banks) for every configuration/register/mode, aliasing iff same architectural register, read-after-write, histories of writes by induction, current-mode access, PC read value, SPSR banking; the 32-bit range invariant proved for the data-processing family (the 67 classes whose execute() is dp_sem): any operation, operand form, flag setting and destination incl. the PC keeps every register, the PC and the CPSR 32-bit and the mode unchanged (Props/C10dp.v); the block-transfer, load/store and arithmetic theorems (C02, C03, C09) carry the same invariant through their own statements.',
          'Partial: for the remaining families the range invariant is part of each execute theorem\'s context (ictx in, 32-bit values written) rather than one statement; across whole steps of every encoding class it is searched (members of 600 encoding classes from overflow-corner states).'),
@@ -46,7 +45,7 @@ CLAIMS = {
          'translated address, little-endian or byte-reversed by CPSR.E; alignment policy by version and SCTLR.A/U incl. legacy '
          'align-down; alignment fault with DFSR/DFAR and no transfer); MemU proved to choose aligned access / alignment fault / '
          'individual byte transfers exactly as specified; closed forms (value read, final memory) on a flat map incl. the byte loop '
-         'with address wrap; instruction fetch little-endian whatever CPSR.E; byte reversal involutive; store-then-load returns the '
+         'with address wrap; instruction fetch little-endian whatever CPSR.E, and the fetch stage of emulate_cycle on a flat map, in ARM state and for 16- and 32-bit Thumb instructions (the bytes at the PC, recorded with their length, nothing else changed: Props/C13step.v); byte reversal involutive; store-then-load returns the '
          'value stored.',
          'Alignment-fault reporting is proved for PMSA (the VMSA data_abort path is C15 territory); the rotated LDR result of the '
          'legacy mode belongs to the load instructions (C02).'),
@@ -72,7 +71,7 @@ CLAIMS = {
  'C18': ('decode is total: for every instruction word and state, decode_instruction (ARM, Thumb 16 and 32 bit, every sub-decoder) returns a class, None, UNDEFINED or the documented not-implemented outcome and leaves the state unchanged, never a host error; with C11_dispatch an UNDEFINED outcome becomes the architectural exception. from_bitarray of every one of the 602 concrete encoding classes proved total: for EVERY integer word and every state it returns an operand record or None (UNPREDICTABLE), or raises UNDEFINED, and leaves the state untouched (Props/C18fb0-7.v).',
          'Partial: totality of the ~270 execute() bodies is a theorem only on the operand domains of their C01-C04/C09/C12 theorems; beyond them it is searched by whole-step runs over members of 600 of the 602 encoding classes with SP/LR/PC operand corners (all 2^16 Thumb halfwords in the thorough tier), which found and led to the repair of five crashes.'),
 
- 'C19': ('proved for every value/mask/state: a PSR write executed in User mode leaves the mode, A/I/F, every other system register, the general and MPU registers and memory unchanged; an SVC from User mode enters Supervisor mode with SPSR_svc.M = User; the unprivileged load/store primitives access memory with User permissions whatever the mode (the AP check itself is C14).',
+ 'C19': ('proved for every value/mask/state: a PSR write executed in User mode leaves the mode, A/I/F, every other system register, the general and MPU registers and memory unchanged; an SVC from User mode enters Supervisor mode with SPSR_svc.M = User; the unprivileged load/store primitives access memory with User permissions whatever the mode (the AP check itself is C14); a skipped (condition-failed) instruction, whatever the word and mode, changes no CPSR field but IT and no other system register (Props/C19step.v with C05step).',
          'Partial: that no instruction word at all lets User mode change privileged state is not a theorem; it is searched by whole steps from User mode over members of 600 encoding classes (ARM and Thumb SRS to every mode included) with a confinement predicate.'),
  'C20': ('isolation proved for the regenerated model: under every interleaving of the steps of any number of instances each '
          'instance reaches exactly the state it reaches alone (determinism is by construction: a step is a function of the '
